@@ -2,6 +2,7 @@
 
 import argparse
 import logging
+import time
 
 from bardolph.lib import injection
 from bardolph.lib import job_control
@@ -70,6 +71,13 @@ def main():
     else:
         for file_name in args.file:
             jobs.add_job(ScriptJob.from_file(file_name))
+
+    # Each queued script is started from the thread of the one before it.
+    # Once the main thread has returned the interpreter refuses to start
+    # threads (Python 3.12), and everything behind the first script would be
+    # dropped: stay until the queue has drained.
+    while jobs.has_jobs():
+        time.sleep(0.1)
 
 
 if __name__ == "__main__":
